@@ -496,7 +496,7 @@ func (m *Monitors) betMonitors(c *Chain, o Op, res string, prev, cur *Snap) []st
 		} else {
 			checkDeltas("C09", "failed deposit")
 		}
-	case "WDR":
+	case "WDR", "SWDR":
 		if res == "ok" {
 			pp := prev.part(marketUID(o.Mkt), uint64(o.Pidx))
 			cp := cur.part(marketUID(o.Mkt), uint64(o.Pidx))
@@ -507,7 +507,12 @@ func (m *Monitors) betMonitors(c *Chain, o Op, res string, prev, cur *Snap) []st
 			amt := sub(pp.Liquidity.BigInt(), cp.Liquidity.BigInt())
 			owner := pp.ParticipantAddress
 			signer := c.AddrOf(o.Signer)
-			if signer != owner {
+			if o.Kind == "SWDR" {
+				// through the subaccount message: the participation must belong to the signer's own subaccount
+				if prev.SubOwner[owner] != signer {
+					bad("C09", "account %d withdrew through its subaccount from a participation of account %d", o.Signer, c.AccID(owner))
+				}
+			} else if signer != owner {
 				g := prev.grant(signer, owner, 2)
 				if e, ok := m.grantExp[[3]int64{c.AccID(owner), o.Signer, 2}]; ok && e >= 0 && e < cur.Time {
 					bad("C09", "withdrawal on behalf of account %d executed at %d under a grant that expired at %d", c.AccID(owner), cur.Time, e)
@@ -542,7 +547,7 @@ func (m *Monitors) betMonitors(c *Chain, o Op, res string, prev, cur *Snap) []st
 			}
 			if pd < 0 || cd < 0 || prev.Deposits[pd].WithdrawalCount >= prev.HouseParams.MaxWithdrawalCount ||
 				cur.Deposits[cd].WithdrawalCount != prev.Deposits[pd].WithdrawalCount+1 {
-				bad("C09", "withdrawal count not respected")
+				bad("C09", "withdrawal count not respected (%s of participation %d of market %d)", o.Kind, o.Pidx, o.Mkt)
 			}
 			for _, e := range prev.ExpIx {
 				if e.OrderBookUID == marketUID(o.Mkt) && e.ParticipationIndex == uint64(o.Pidx) && e.Round != 1 {
